@@ -326,6 +326,9 @@ if not bad and joblib.hash(m) == joblib.hash(a):
     bad = "a memmap and an equal in-memory array get the same digest without coerce_mmap"
 if not bad and joblib.hash(m, coerce_mmap=True) != joblib.hash(a, coerce_mmap=True):
     bad = "coerce_mmap=True: a memmap and an equal in-memory array get different digests"
+del m
+import shutil
+shutil.rmtree(d, ignore_errors=True)
 print(json.dumps(dict(ok=not bad, what=bad, n=len(U))))
 '''
 
